@@ -18,5 +18,7 @@ for feat in ('std', 'alloc'):
         print('MIR dump %s [%s]: %d lines in %.1fs' % (c, feat, t.count('\n'), dt))
 print('replay (debug):', validate.build_replay('debug'))
 print('replay (release):', validate.build_replay('release'))
+from checks import step_replay
+print('step replay:', step_replay.build())
 PY
 echo setup done
